@@ -28,12 +28,20 @@ func WithResolvedDatabase(dbStream io.Reader, pc parser.Config, rc resolver.Conf
 
 func WalkWithReporter(logStream, dbStream io.Reader, dateFormat string, pc parser.Config, rc resolver.Config, rpc reporter.Config, fc filter.Config, rpCb ReporterCallback) error {
 	return WithResolvedDatabase(dbStream, pc, rc,
-		func(nl shared.DBNodeMap) error {
+		func(nl shared.DBNodeMap) (err error) {
 			r := rpCb(rpc, nl)
-			defer r.Flush()
+			defer FlushReporter(r, &err)
 			f := filter.GetIntervalNodeFilter(fc)
 			return WalkNodesInStream(logStream, dateFormat, pc, f, r)
 		})
+}
+
+// FlushReporter flushes the reporter when a command is done; a failed flush (the
+// report could not be written) becomes the command's error unless it already has one.
+func FlushReporter(r interface{ Flush() error }, err *error) {
+	if flushErr := r.Flush(); *err == nil {
+		*err = flushErr
+	}
 }
 
 func LoadDatabaseFromStream(dbStream io.Reader, pc parser.Config) (shared.DBNodeMap, error) {
